@@ -1038,14 +1038,14 @@ func (ex *vExec) classifyHang() (string, []string) {
 	return "hang:" + strings.Join(stacks, ";"), stacks
 }
 
-// TestVerifGate replays the scripts of VERIF_IN concurrently and writes one record per script.
+// TestVerifGate replays the scripts of C13_IN concurrently and writes one record per script.
 func TestVerifGate(t *testing.T) {
-	in, out := os.Getenv("VERIF_IN"), os.Getenv("VERIF_OUT")
+	in, out := os.Getenv("C13_IN"), os.Getenv("C13_OUT")
 	if in == "" || out == "" {
 		t.Skip("driver only")
 	}
-	U := time.Duration(vEnvInt("VERIF_U_MS", 200)) * time.Millisecond
-	par := vEnvInt("VERIF_PAR", 32)
+	U := time.Duration(vEnvInt("C13_U_MS", 200)) * time.Millisecond
+	par := vEnvInt("C13_PAR", 32)
 	VerifHook = vHookFn
 	vStartStallMonitor()
 	w := vCreate(out)
